@@ -16,7 +16,7 @@ EXPLANATION = (
     "is incremented with the assignment (R4).")
 ASSUMPTIONS = ["hwloc-based topology queries return consistent numbers", "pika::detail::throws_if throws unless the caller supplied an error_code"]
 THOROUGH_CONFIGS = [["-UNDEBUG", "-DPIKA_DEBUG"]]
-FLOORS = {"C15.R1": 6, "C15.R2": 4, "C15.R3": 8, "C15.R4": 2, "C15.R5": 8, "C15.R6": 4}
+FLOORS = {"C15.R1": 6, "C15.R2": 4, "C15.R3": 8, "C15.R4": 4, "C15.R5": 8, "C15.R6": 4}
 
 DEC = ["decode_compact_distribution", "decode_scatter_distribution", "decode_balanced_distribution", "decode_numabalanced_distribution"]
 
@@ -367,6 +367,31 @@ def run(rep, tier):
                     "two pools would share a processing unit" % (over, free, inc))
     if allok:
         rep.ok("C15.R4", f, "%d assignment site(s): only under mode_allow_oversubscription or thread_occupancy_count_ == 0, each with ++thread_occupancy_count_" % len(adds), sites=len(adds))
+    # one worker per PU: every call of add_resource(pu, ...) inside the partitioner itself (the default pool's share in
+    # setup_pools, the vector / core / socket overloads) adds exactly one thread for the PU - a count taken from the
+    # affinity occupancy would put several workers on one PU without over-subscription having been allowed
+    RPA = facts(rep, lib("resource_partitioner", "src/detail_partitioner.cpp"), [r"^pika::resource::detail::partitioner::(add_resource|setup_pools)$"])
+    inner = []
+    for g in RPA.fns:
+        if g.parent != -1:
+            continue
+        for _, _, ev in g.all_events():
+            if ev.get("k") == "call" and callee_short(ev) == "add_resource" and callee_of(ev).endswith("partitioner::add_resource") and \
+                    (ev.get("ptypes") or [""])[0].startswith("const pika::resource::pu"):
+                inner.append((g, ev))
+    if len(inner) < 2:
+        raise AnalysisBroken("partitioner: internal add_resource(pu, ...) call sites not found (%d)" % len(inner))
+    for g, ev in inner:
+        a3 = strip(ev["args"][3]) if len(ev.get("args") or []) > 3 else None
+        one = a3 is None or (a3.get("k") == "lit" and a3.get("v") == 1) or a3.get("k") == "defaultarg" or T(a3) in ("1", "")
+        if a3 is not None and a3.get("k") == "var" and a3.get("param"):
+            rep.ok("C15.R4", g, "%s forwards its caller's thread count (public overload, %s)" % (g.qname.rsplit("::", 1)[-1], loc_of(ev)))
+        elif one:
+            rep.ok("C15.R4", g, "%s adds one thread for the PU (%s)" % (g.qname.rsplit("::", 1)[-1], loc_of(ev)))
+        else:
+            rep.bad("C15.R4", g, loc_of(ev), "threads-per-pu:" + g.qname.rsplit("::", 1)[-1],
+                    "%s hands a PU to a pool with %s threads: without over-subscription being allowed several workers of the pool are bound to the same processing unit "
+                    "(and a thread count that does not fit the PUs is accepted instead of being refused)" % (g.qname.rsplit("::", 1)[-1], T(a3)))
     lf = LockFlow(f)
     if all("this->mtx_" in (lf.held_before((b, i)) or frozenset()) for b, i, ev in adds):
         rep.ok("C15.R4", f, "occupancy is tested and updated under the partitioner mutex")
